@@ -73,6 +73,9 @@ pub fn type_of_mode(mode: u32) -> &'static str {
 /// (st_dev, st_ino) -> model file id, ids by first appearance; every file seen is pinned by an
 /// O_PATH descriptor until the end of the segment so that the host never re-uses an inode number.
 pub struct Ids {
+    /// atime/mtime (sec, nsec) of every object at the last walk, by file id (taken by lstat before the
+    /// walk reads any content, so right after a SETATTR step these are the times that step left)
+    pub times: HashMap<i64, (i64, i64, i64, i64)>,
     pub map: HashMap<(u64, u64), i64>,
     pins: Vec<i32>,
     next: i64,
@@ -80,7 +83,7 @@ pub struct Ids {
 
 impl Ids {
     pub fn new() -> Self {
-        Ids { map: HashMap::new(), pins: Vec::new(), next: 1 }
+        Ids { times: HashMap::new(), map: HashMap::new(), pins: Vec::new(), next: 1 }
     }
     pub fn get(&self, dev: u64, ino: u64) -> i64 {
         *self.map.get(&(dev, ino)).unwrap_or(&-1)
@@ -120,7 +123,11 @@ pub fn attr_json(st: &libc::stat64, ids: &Ids) -> J {
 }
 
 pub fn times_json(st: &libc::stat64) -> J {
-    json!({"atime": st.st_atime.to_string(), "mtime": st.st_mtime.to_string()})
+    json!({"atime": st.st_atime.to_string(), "atime_ns": st.st_atime_nsec, "mtime": st.st_mtime.to_string(), "mtime_ns": st.st_mtime_nsec})
+}
+
+pub fn ftimes_json(ids: &Ids, id: i64) -> Option<J> {
+    ids.times.get(&id).map(|t| json!({"atime": t.0.to_string(), "atime_ns": t.1, "mtime": t.2.to_string(), "mtime_ns": t.3}))
 }
 
 fn list_xattrs(path: &Path) -> J {
@@ -166,6 +173,8 @@ pub fn walk(base: &Path, label: &str, par: i64, name: &str, ids: &mut Ids, seg_r
         "unknown"
     };
     let id = ids.learn(md.dev(), md.ino(), base);
+    // first visit only: reading the content through one name may move the atime seen through another hard link
+    ids.times.entry(id).or_insert((md.atime(), md.atime_nsec(), md.mtime(), md.mtime_nsec()));
     let mut tgt = String::new();
     let mut data: Vec<u8> = Vec::new();
     if t == "lnk" {
@@ -293,8 +302,8 @@ pub fn build(root: &Path, spec: Option<&J>) {
             write_file(&ex.join("f1"), b"abcdefgh", 0o644, 0, 0);
             write_file(&ex.join("f2"), b"", 0o600, 0, 0);
             write_file(&ex.join("f3"), b"mnopqrstuvwx", 0o666, 1000, 1000);
-            // two file-system blocks: the only file on which collapse/insert range can succeed
-            write_file(&ex.join("big"), &vec![b'B'; 8192], 0o644, 0, 0);
+            // three file-system blocks: the only file on which collapse/insert range can succeed
+            write_file(&ex.join("big"), &vec![b'B'; 3 * 4096], 0o644, 0, 0);
             mkdir(&ex.join("d1"), 0o755, 0, 0);
             write_file(&ex.join("d1/g"), b"xyz", 0o644, 0, 0);
             mkdir(&ex.join("d2"), 0o777, 0, 0);
@@ -317,6 +326,7 @@ pub fn build(root: &Path, spec: Option<&J>) {
 pub fn digests(root: &Path, ids: &mut Ids) -> (BTreeMap<String, J>, BTreeMap<String, J>) {
     let s = root.join("S");
     let seg_root = s.to_string_lossy().to_string();
+    ids.times.clear();
     let mut ex = BTreeMap::new();
     walk(&s.join("export"), "", 0, "", ids, &seg_root, &mut ex);
     let mut out = BTreeMap::new();
